@@ -216,6 +216,10 @@ class Subject:
             ev['gen'] = len(self.proxy.generations)
             if any(r.get('on_dead') for r in self.proxy.reqlog[n0:self.proxy.req_counter]):
                 ev['on_dead'] = True
+                ev['on_dead_gens'] = sorted({r['gen'] for r in self.proxy.reqlog[n0:self.proxy.req_counter]
+                                             if r.get('on_dead')})
+            if op['op'] == 'script' and getattr(self, 'last_bound_gen', None) is not None and res == 'ok':
+                ev['bound_gen'] = self.last_bound_gen
             cnt = self.rec.take()
             if cnt:
                 ev['cache'] = cnt
@@ -309,8 +313,21 @@ class Subject:
             return ['EXC', type(e).__name__]
         self.scripts[sid] = s
         self.script_ids[sid] = set()
-        self.script_gen[sid] = len(self.proxy.generations) - 1
+        self.script_gen[sid] = self.bound_generation(s)
+        self.last_bound_gen = self.script_gen[sid]
         return 'ok'
+
+    def bound_generation(self, script):
+        """index of the helper generation this Script is bound to (None: no helper)"""
+        try:
+            cs = script._inference_state.compiled_subprocess._compiled_subprocess
+            for dct in cs.__dict__.get('_memoize_method_dct', {}).values():
+                for v in dct.values():
+                    if v in self.proxy.generations:
+                        return v.index
+        except AttributeError:
+            return None
+        return len(self.proxy.generations) - 1
 
     def op_probe(self, op):
         s = self.scripts.get(op['sid'])
@@ -382,9 +399,10 @@ class Subject:
     def op_kill_helper(self, op):
         if self.spec.get('reference'):
             return 'skipped'
-        g = self.proxy.current
-        if g is None or g.dead:
+        alive = [x for x in self.proxy.generations if not x.dead and x.real.poll() is None]
+        if not alive:
             return 'nohelper'
+        g = alive[-1] if op.get('pick') is None else alive[int(op['pick']) % len(alive)]
         g.sim_kill()
         self.proxy.fired.append({'k': self.proxy.req_counter, 'phase': 'kill_idle', 'fn': None, 'gen': g.index})
         return 'killed'
